@@ -211,12 +211,12 @@ func (c01) Eval(c *Chooser, env *Env) *Outcome {
 	toolsDesc := ""
 	if c.Weighted("world.tools", 1, 3) {
 		tm := &Tools{Broken: map[string]ToolFault{}}
-		kinds := []ToolFault{TFNone, TFNonzeroEmpty, TFCannotStart, TFKilled, TFGarbage, TFEmptyOK, TFJSONGarbage, TFNullElement, TFExit137}
+		kinds := []ToolFault{TFNone, TFNonzeroEmpty, TFCannotStart, TFKilled, TFGarbage, TFEmptyOK, TFJSONGarbage, TFNullElement, TFExit137, TFFlood}
 		if k := kinds[c.Int("fault.shellcheck", len(kinds))]; k != TFNone {
 			tm.Broken["shellcheck"] = k
 			toolsDesc += "shellcheck=" + string(k) + " "
 		}
-		pk := []ToolFault{TFNone, TFNonzeroEmpty, TFCannotStart, TFKilled, TFNoNewline, TFExit137}
+		pk := []ToolFault{TFNone, TFNonzeroEmpty, TFCannotStart, TFKilled, TFNoNewline, TFExit137, TFFlood}
 		if k := pk[c.Int("fault.pyflakes", len(pk))]; k != TFNone {
 			tm.Broken["pyflakes"] = k
 			toolsDesc += "pyflakes=" + string(k) + " "
